@@ -43,7 +43,10 @@ macro_rules! readonly_impl {
 
             #[inline(always)]
             pub fn len(&self) -> usize {
-                *self.length as usize
+                // the length prefix of a truncated or foreign buffer can exceed the
+                // number of value slots; it must not be trusted, since element
+                // shifting is done with raw copies sized by it
+                std::cmp::min(*self.length as usize, self.values.len())
             }
 
             /// Returns the index of the value in the array.
@@ -63,7 +66,7 @@ macro_rules! readonly_impl {
                 }
 
                 let mut start = 0;
-                let mut end = (*self.length - 1) as usize;
+                let mut end = self.len() - 1;
 
                 while start <= end {
                     let middle = start + (end.saturating_sub(start) / 2);
